@@ -9422,6 +9422,11 @@ class SVG(Group):
                                 # Delayed path parsing, for partial paths.
                                 s = Path(values, pathd_loaded=True)
                                 s.parse(values.get(SVG_ATTR_DATA, ""))
+                                if len(s) != 0 and not isinstance(s[0], Move):
+                                    # Path data of an element must begin with a moveto; it is rendered
+                                    # up to the error, which is nothing.
+                                    del s[:]
+                                    raise ValueError("Path data does not begin with a moveto")
                             elif SVG_TAG_CIRCLE == tag:
                                 s = Circle(values)
                             elif SVG_TAG_ELLIPSE == tag:
